@@ -72,6 +72,64 @@ theorem rawAll_insertPos (el : Toks) (he : rawAll el = []) (p : Nat) (ts : Toks)
         subst h
         simp [ih count r hr]
 
+/-- rewriting one main text node by a function that keeps its characters keeps every character -/
+theorem rawAll_onMainNode (f : Bool → Bool → List Char → Toks) (hf : ∀ h s cs, rawAll (f h s cs) = cs) (ts : Toks) (idx : Nat) (ts' : Toks)
+    (h : onMainNode f ts idx = some ts') : rawAll ts' = rawAll ts := by
+  induction ts generalizing idx ts' with
+  | nil => simp [onMainNode] at h
+  | cons t rest ih =>
+    cases t with
+    | txt hh s cs =>
+      simp only [onMainNode] at h
+      split at h
+      · cases hr : onMainNode f rest idx with
+        | none => simp [hr] at h
+        | some r =>
+          simp only [hr, Option.map_some, Option.some.injEq] at h
+          subst h
+          simp [ih idx r hr]
+      · cases idx with
+        | zero =>
+          simp only at h
+          cases h
+          rw [rawAll_append, hf]
+          simp [Tok.raw]
+        | succ i =>
+          simp only at h
+          cases hr : onMainNode f rest i with
+          | none => simp [hr] at h
+          | some r =>
+            simp only [hr, Option.map_some, Option.some.injEq] at h
+            subst h
+            simp [ih i r hr]
+    | op k l hh =>
+      simp only [onMainNode] at h
+      cases hr : onMainNode f rest idx with
+      | none => simp [hr] at h
+      | some r =>
+        simp only [hr, Option.map_some, Option.some.injEq] at h
+        subst h
+        simp [ih idx r hr]
+    | cl =>
+      simp only [onMainNode] at h
+      cases hr : onMainNode f rest idx with
+      | none => simp [hr] at h
+      | some r =>
+        simp only [hr, Option.map_some, Option.some.injEq] at h
+        subst h
+        simp [ih idx r hr]
+
+/-- an insertion before / after a match — of ANY matcher — adds no character and loses none -/
+theorem rawAll_insertRe (el : Toks) (he : rawAll el = []) (before : Bool) (position : Int) (spans : List (List (Nat × Nat)))
+    (ts ts' : Toks) (h : insertRe el before position spans ts = some ts') : rawAll ts' = rawAll ts := by
+  unfold insertRe at h
+  cases hs : search position spans with
+  | none => simp [hs] at h
+  | some r =>
+    obtain ⟨idx, a, b⟩ := r
+    simp only [hs] at h
+    exact rawAll_onMainNode _ (fun hh s cs => rawAll_splitInsert hh s cs _ el he) ts idx ts' h
+
 theorem rawAll_relabelOp (k l' l : Nat) (hk : k ≠ 1 ∧ k ≠ 2 ∧ k ≠ 3) (ts : Toks) : rawAll (relabelOp k l' l ts) = rawAll ts := by
   unfold relabelOp
   induction ts with
